@@ -11,6 +11,9 @@
 (*                  r/OWNER-case, r/rdata-name-case, r2, r3, for a type with   *)
 (*                  (names = TRUE) and without an embedded name (then          *)
 (*                  r/rdata-name-case is r itself) -> [q, names, keep, ttls]   *)
+(*   Mode "seqs"    every pair of lists of at most N symbols, for two Dedup    *)
+(*                  calls in a row (with nil, fresh or one re-used scratch     *)
+(*                  map): each result as if the call were the only one         *)
 EXTENDS MC_Dup, GenBase
 
 CONSTANTS N, Shard, NShards
@@ -32,6 +35,8 @@ GInit == \/ Mode = "pairs"   /\ \E a \in Recs, b \in Recs : x = << a, b >> /\ In
          \/ Mode = "lists"   /\ \E q \in UNION { [1..k -> 1..Len(Sym)] : k \in 0..N }, names \in BOOLEAN, sh \in 1..Len(Shapes) :
                                    x = << q, names, sh >> /\ (sh = 1 \/ Len(q) >= 2)
          \/ Mode = "octets"  /\ \E c \in 0..255, w \in 1..2 : x = << c, w >>
+         \/ Mode = "seqs"    /\ \E q1 \in UNION { [1..k -> 1..Len(Sym)] : k \in 0..N }, q2 \in UNION { [1..k -> 1..Len(Sym)] : k \in 0..N },
+                                   names \in BOOLEAN : x = << q1, q2, names >>
 GNext == UNCHANGED x
 
 Out ==
@@ -43,6 +48,11 @@ Out ==
          Emit([kind |-> "list", q |-> x[1], names |-> x[2], shape |-> x[3],
                owners |-> [k \in 1..3 |-> Present(<< Shapes[x[3]][k] >>)],
                keep |-> [k \in 1..Len(d) |-> d[k].i], ttls |-> [k \in 1..Len(d) |-> d[k].ttl[2]]])
+    [] Mode = "seqs" ->    \* two calls in a row: the result of each depends on its own argument only
+         LET d1 == DedupIdx(ListOfN(x[1], x[3], 1))  d2 == DedupIdx(ListOfN(x[2], x[3], 1)) IN
+         Emit([kind |-> "seq", q |-> x[1], q2 |-> x[2], names |-> x[3],
+               keep  |-> [k \in 1..Len(d1) |-> d1[k].i], ttls  |-> [k \in 1..Len(d1) |-> d1[k].ttl[2]],
+               keep2 |-> [k \in 1..Len(d2) |-> d2[k].i], ttls2 |-> [k \in 1..Len(d2) |-> d2[k].ttl[2]]])
     [] Mode = "octets" ->
          LET a == OctRec(x[1], x[2])  b == OctRec(Partner(x[1]), x[2]) IN
          Emit([kind |-> "octet", oct |-> x[1], w |-> x[2],
